@@ -312,7 +312,9 @@ def getitem(E, obj, idx):
     if isinstance(obj, DictV):
         has = E.dhas(obj, idx)
         if not E.spec:
-            if "KeyError" in E.raises_decl or E.in_try():
+            if getattr(E, "comp_guards", None) is not None and ("KeyError" in E.raises_decl or E.in_try()):
+                E.comp_guards.append((has, KeyError))       # inside _map_comprehension_seq: decided there, for all i
+            elif "KeyError" in E.raises_decl or E.in_try():
                 if not E.branch(has):
                     raise PyRaise(ExcV(KeyError, (idx,)))
             else:
@@ -356,6 +358,14 @@ def getitem(E, obj, idx):
         if not E.spec:
             E.oblige("safe", z3.BoolVal(False), "subscripted value is subscriptable (it is a method)",
                      assume_after=False)
+        raise PyRaise(ExcV(TypeError, ("not subscriptable",), {"reported": True}))
+    if isinstance(obj, Sym) and isinstance(obj.k, tuple) and obj.k[0] == "opaque" and not E.spec:
+        # `v[i]` where v is a value the contracts declare opaque (interface: equality only), as for `x in v` in
+        # Engine.contains: the code relies on more than the declared interface (for an int this is a TypeError, for a
+        # str a character ...).  Reported as a failing safety obligation; the path continues as the TypeError case.
+        # (used to be Unsupported)
+        E.oblige("safe", z3.BoolVal(False), "a subscript is applied to a value whose declared interface is equality "
+                 "only (what it yields depends on its run-time type)", assume_after=False)
         raise PyRaise(ExcV(TypeError, ("not subscriptable",), {"reported": True}))
     raise Unsupported("subscript of %r (line %d)" % (obj, E.cur_line))
 
@@ -440,6 +450,9 @@ def setitem(E, obj, idx, v):
         return
     if isinstance(obj, DictV):
         E.dset(obj, idx, v)
+        return
+    if isinstance(obj, dict) and isinstance(idx, (str, int)) and not isinstance(idx, bool):
+        obj[idx] = v          # local literal dict with a concrete key (a parameter table being filled in)
         return
     if isinstance(obj, RefV):
         h = E.reg.setitem_hook(obj.cls)
@@ -775,6 +788,59 @@ def _map_comprehension(E, n, g, it):
     return E.new_list(et, L, [arr])
 
 
+def _map_comprehension_seq(E, n, g, it):
+    """[elt(x) for x in L] over a LIST (or abstract sequence) of symbolic length, no filter.  As _map_comprehension:
+    the element expression is evaluated once for an arbitrary index i (hypothesis 0 <= i < len, dropped afterwards;
+    obligations raised meanwhile keep it) and abstracted into one lambda array per component of the element type
+    (scalars, tuples of scalars, references).  The evaluation must neither fork, nor write the heap, nor introduce
+    fresh symbols (Unsupported otherwise).  A subscript of a dict that may raise KeyError on this path (KeyError
+    declared / inside try) does not fork: its presence condition is collected in E.comp_guards, and the comprehension
+    as a whole either finds every key present or raises KeyError (Python evaluates the elements in order and the
+    first absent key raises; the evaluation is pure, so nothing else is observable)."""
+    L = z3.simplify(iter_len(E, it))
+    i = E.fresh("ci", z3.IntSort())
+    saved_env = dict(E.frame.env)
+    saved_pc, saved_assumed = list(E.pc), set(E.assumed)
+    heap0 = dict(E.heap)
+    fresh0 = dict(E.fresh_n)
+    npos, ndec, npend = E.pos, len(E.decisions), len(E.pending)
+    prev_guards = getattr(E, "comp_guards", None)
+    guards = []
+    E.comp_guards = guards
+    try:
+        E.pc.append(z3.And(i >= 0, i < L))
+        E.assign(g.target, iter_at(E, it, i))
+        v = E.eval(n.elt)
+        forked = (E.pos, len(E.decisions), len(E.pending)) != (npos, ndec, npend)
+        # (a heap array first READ here appears in E.heap as its base constant: that is not a write)
+        wrote = any(E.heap.get(k) is not heap0.get(k) for k in heap0) or \
+            any(not E.heap[k].eq(E.base_arr(k, E.heap[k])) for k in E.heap if k not in heap0)
+        newsyms = any(E.fresh_n.get(k) != fresh0.get(k) for k in E.fresh_n)
+    finally:
+        E.comp_guards = prev_guards
+        E.pc[:] = saved_pc
+        E.assumed = saved_assumed
+        E.frame.env.clear()
+        E.frame.env.update(saved_env)
+    if forked or wrote or newsyms:
+        raise Unsupported("comprehension over a symbolic-length list whose element is not a pure expression "
+                          "(line %d)" % E.cur_line)
+    try:
+        et = type_of_value(v)
+        terms = pack(et, v)
+    except Unsupported:
+        raise Unsupported("comprehension over a symbolic-length list: element %r has no packed form (line %d)"
+                          % (v, E.cur_line))
+    if guards:
+        k = z3.Int("k!cg%d" % next(E.counter))
+        allok = z3.ForAll([k], z3.Implies(z3.And(k >= 0, k < L),
+                                          z3.And(*[z3.substitute(c, (i, k)) for c, _x in guards])))
+        if not E.branch(allok):
+            raise PyRaise(ExcV(guards[0][1], ()))
+    arrs = [z3.Lambda([KLAM], z3.substitute(t, (i, KLAM))) for t in terms]
+    return E.new_list(et, L, arrs)
+
+
 class PyList(list):
     """python-level list of values produced by a comprehension / list(...) of concrete length"""
 
@@ -926,6 +992,16 @@ def call_python(E, f, args, kwargs):
         if isinstance(args[1], str):
             return E.getattr_v(args[0], args[1])
     if f is _pyb.hasattr:
+        if isinstance(args[0], RefV) and isinstance(args[1], str) and \
+                E.reg._hook(args[0].cls, "hasattr", args[1]) is not None:
+            # declared class whose real base class supplies the attribute (dict.get of an odict ...)
+            return E.reg._hook(args[0].cls, "hasattr", args[1])(E, args[0])
+        if isinstance(args[0], ListV) and args[0].nn and isinstance(args[1], str):
+            # (used to be Unsupported) a ListV stands for a list, a deque or a bytearray: answered only when the three
+            # real types agree on the attribute
+            import collections as _c
+            if hasattr(list, args[1]) == hasattr(_c.deque, args[1]) == hasattr(bytearray, args[1]):
+                return hasattr(list, args[1])
         if isinstance(args[0], RefV) and isinstance(args[1], str):
             return E.reg.field_type(args[0].cls, args[1]) is not None
         raise Unsupported("hasattr")
@@ -1054,8 +1130,15 @@ def call_method(E, obj, name, args, kwargs):
     if isinstance(obj, dict) and name in ("items", "values", "keys") and not args:
         # concrete table (insertion ordered, as in CPython >= 3.7)
         return {"items": list(obj.items()), "values": list(obj.values()), "keys": list(obj.keys())}[name]
+    if isinstance(obj, dict) and name == "get" and 1 <= len(args) <= 2 and not kwargs and \
+            isinstance(args[0], (str, int)) and all(isinstance(k_, (str, int)) for k_ in obj):
+        # concrete table (the **kwargs dict) looked up with a concrete key; used to be Unsupported
+        return obj.get(args[0], args[1] if len(args) > 1 else None)
     if isinstance(obj, GenV) and name == "close" and not args and not kwargs:
         return None            # see GenV: no code runs on GeneratorExit
+    if isinstance(obj, Sym) and isinstance(obj.k, tuple) and obj.k[0] == "opaque" and \
+            E.reg.external_named("opaque:%s.%s" % (obj.k[1], name)) is not None:
+        return E.reg.external_named("opaque:%s.%s" % (obj.k[1], name))(E, [obj] + list(args), kwargs)
     raise Unsupported("method %s of %r" % (name, obj))
 
 
